@@ -138,6 +138,8 @@ pub fn programs(kind: &str, src: &[String]) -> Vec<(String, String)> {
             v.push((format!("{tag} in-record"), format!("w = {{\n  a: {},\n  b: 2\n}}", render(kind, src, tc, fancy, "  "))));
             v.push((format!("{tag} lambda"), format!("f = q => {c}")));
             v.push((format!("{tag} in-do"), format!("do {{\n  t = {}\n  return t\n}}", render(kind, src, tc, fancy, "  "))));
+            // the compact style: statements ended by `;`, comments after the `;` on the same line and on lines of their own
+            v.push((format!("{tag} in-do semicolons"), format!("do {{\n  t = {}; // after a semicolon\n  // on a line of its own\n  u = 1; // short\n  return t\n}}", render(kind, src, tc, fancy, "  "))));
             if kind != "do" {
                 v.push((format!("{tag} in-do eol"), format!("do {{\n  t = {} // after the statement, long enough to pass any margin there may be at all\n  u = 1 // short\n  return t\n}}", render(kind, src, tc, fancy, "  "))));
                 v.push((format!("{tag} top eol"), format!("z = {} // after the statement, long enough to pass any margin there may be at all\ny = 2", c)));
